@@ -682,7 +682,12 @@ class FldExporter(Exporter):
         if scope == FldExporter.ScopeOfValues.AllVariables:
             if len(engine.input_variables) == 0:
                 raise ValueError("expected input variables in engine, but got none")
-            resolution = -1 + max(1, int(pow(values, (1.0 / len(engine.input_variables)))))
+            inputs = len(engine.input_variables)
+            # largest integer root: the floating-point root can fall just below an exact one (eg, 64 ** (1/3))
+            root = max(1, int(round(pow(values, (1.0 / inputs)))))
+            while root > 1 and root**inputs > values:
+                root -= 1
+            resolution = -1 + root
         else:
             resolution = values - 1
 
